@@ -213,6 +213,7 @@ func (r *e1Run) run() {
 	}
 	r.nodeVer = make([]int, n)
 	r.nodePat = make([]int, n)
+	r.openSubscriptions()
 	synctest.Wait()
 	for _, nd := range r.nodes {
 		nd.TakeUpdates()
@@ -1005,7 +1006,7 @@ func (r *e1Run) headsView(node int) string {
 		}
 		data, errs := r.nodes[node].GQL(fmt.Sprintf(`query { latestCommits(docID: %q) { cid } }`, id))
 		if len(errs) > 0 {
-			parts = append(parts, "ERR:"+strings.Join(errs, ";"))
+			r.res.violate(r.pid("C01"), "query-failed", "latestCommits", r.step, "node %d latestCommits(%s): %v", node, id, errs)
 			continue
 		}
 		var cs []string
@@ -1016,7 +1017,7 @@ func (r *e1Run) headsView(node int) string {
 		for _, f := range userFields {
 			data, errs := r.nodes[node].GQL(fmt.Sprintf(`query { latestCommits(docID: %q, fieldName: %q) { cid } }`, id, f.Name))
 			if len(errs) > 0 {
-				parts = append(parts, "ERR:"+strings.Join(errs, ";"))
+				r.res.violate(r.pid("C01"), "query-failed", "latestCommits-field", r.step, "node %d latestCommits(%s,%s): %v", node, id, f.Name, errs)
 				continue
 			}
 			var fs []string
